@@ -22,6 +22,11 @@ class Unknown(AnalysisError):
     pass
 
 
+# facts established by the entry check of every object node (`if not isinstance(data, dict): raise bad_type`): when that check is
+# written as a guard clause it appears in the reach condition of everything after it; the tables describe what happens to a dict
+GIVENS = {"isinstance(data, dict)": True}
+
+
 class BoolEval:
     def __init__(self, atoms: Dict[str, str], locals_: Optional[Dict[str, ast.AST]] = None,
                  inline: Optional[Callable] = None,
@@ -61,6 +66,9 @@ class BoolEval:
                 name = a[1:]
                 return lambda v: not v[name]
             return lambda v: v[a]
+        if text in GIVENS:
+            g = GIVENS[text]
+            return lambda v: g
         if isinstance(e, ast.Constant):
             c = e.value
             return lambda v: c
